@@ -9,24 +9,38 @@ _M_FROM = "exists(%s, lambda it: item_module(it) is from_module(updated_node) an
 
 
 def _contract(name, matched, cond_inner, requires=None):
-    contract(P + "RemoveImportsTransformer." + name, props=["C16", "C15"], theories=TH, requires=requires or {},
+    M = lambda a: matched.format(a=a)
+    NTH = "nth(cst_names(updated_node), j)"
+    # libcst hands leave_* a node, never the removal sentinel (T-CST)
+    requires = dict(requires or {}, **{"a-node": "updated_node is not REMOVE"})
+    contract(P + "RemoveImportsTransformer." + name, props=["C16", "C15"], theories=TH, requires=requires,
              params={"self": "ImpTransformer", "original_node": "ImportNode", "updated_node": "ImportNode"}, result="ImportNode",
              ensures={
                  # every import the source already had stays: a name is removed only if the ImportItem it denotes (module, object, alias) is in the move list
-                 "post:kept-unless-in-move-list": "implies(not is_star(updated_node), forall(cst_names(updated_node), lambda a: implies(not " + matched.format(a="a") + ","
-                                                  " result is not REMOVE and has(cst_names(result), alias_nocomma(a)))))",
-                 "post:nothing-invented": "implies(result is not REMOVE and not is_star(updated_node), forall(cst_names(result), lambda x: exists(cst_names(updated_node), lambda a: x is alias_nocomma(a) and not "
-                                          + matched.format(a="a") + ")))",
-                 "post:removed-iff-all-moved": "implies(not is_star(updated_node), (result is REMOVE) == forall(cst_names(updated_node), lambda a: " + matched.format(a="a") + "))",
+                 # (a kept name is the source's alias node itself, or that node with its trailing comma normalised when a neighbour was removed)
+                 "post:kept-unless-in-move-list": "implies(not is_star(updated_node), forall(cst_names(updated_node), lambda a: implies(not " + M("a") + ","
+                                                  " result is not REMOVE and (has(cst_names(result), a) or has(cst_names(result), alias_nocomma(a))))))",
+                 "post:nothing-invented": "implies(result is not REMOVE and not is_star(updated_node), forall(cst_names(result), lambda x: exists(cst_names(updated_node), lambda a: (x is a or x is alias_nocomma(a)) and not "
+                                          + M("a") + ")))",
+                 "post:removed-iff-all-moved": "implies(not is_star(updated_node), (result is REMOVE) == forall(cst_names(updated_node), lambda a: " + M("a") + "))",
                  "post:star-untouched": "implies(is_star(updated_node), result is updated_node)",
+                 # C15 / C16 "stays where it was": a statement from which nothing moves is returned as written (layout, commas, comments after names)
+                 "post:untouched-when-nothing-moves": "implies(not is_star(updated_node) and len(cst_names(updated_node)) > 0 and forall(range_(0, len(cst_names(updated_node))), lambda j: not " + M(NTH) + "),"
+                                                      " result is updated_node)",
              },
              hints={"nothing-kept": "implies(len(L_names_to_keep) == 0, forall_v(lambda x: not has(L_names_to_keep, x)))",
-                    "empty-means-all-moved": "implies(len(L_names_to_keep) == 0, forall(range_(0, len(cst_names(updated_node))), lambda j: " + matched.format(a="nth(cst_names(updated_node), j)") + "))",
-                    "nonempty-means-one-kept": "implies(len(L_names_to_keep) > 0, exists(range_(0, len(cst_names(updated_node))), lambda j: not " + matched.format(a="nth(cst_names(updated_node), j)") + "))"},
+                    "empty-means-all-moved": "implies(len(L_names_to_keep) == 0, forall(range_(0, len(cst_names(updated_node))), lambda j: " + M(NTH) + "))",
+                    "nonempty-means-one-kept": "implies(len(L_names_to_keep) > 0, exists(range_(0, len(cst_names(updated_node))), lambda j: not " + M(NTH) + "))",
+                    "all-kept-means-none-moved": "implies(len(L_names_to_keep) == len(cst_names(updated_node)), forall(range_(0, len(cst_names(updated_node))), lambda j: not " + M(NTH) + "))",
+                    "none-moved-means-all-kept": "len(L_names_to_keep) == len(cst_names(updated_node)) or exists(range_(0, len(cst_names(updated_node))), lambda j: " + M(NTH) + ")"},
              loops={0: {"iter": "updated_node.names",
-                        "inv": {"kept": "forall(range_(0, _i), lambda j: implies(not " + matched.format(a="nth(cst_names(updated_node), j)") + ", has(names_to_keep, alias_nocomma(nth(cst_names(updated_node), j)))))",
-                                "only": "forall(names_to_keep, lambda x: exists(range_(0, _i), lambda j: x is alias_nocomma(nth(cst_names(updated_node), j)) and not "
-                                        + matched.format(a="nth(cst_names(updated_node), j)") + "))"}},
+                        "inv": {"kept": "forall(range_(0, _i), lambda j: implies(not " + M(NTH) + ", has(names_to_keep, alias_nocomma(" + NTH + "))))",
+                                "only": "forall(names_to_keep, lambda x: exists(range_(0, _i), lambda j: x is alias_nocomma(" + NTH + ") and not " + M(NTH) + "))",
+                                # counting: the kept list is as long as the scanned prefix exactly when nothing of the prefix is in the move list
+                                "some-kept": "implies(len(names_to_keep) > 0, exists(range_(0, _i), lambda j: not " + M(NTH) + "))",
+                                "count-le": "len(names_to_keep) <= _i",
+                                "count-all": "implies(len(names_to_keep) == _i, forall(range_(0, _i), lambda j: not " + M(NTH) + "))",
+                                "count-some": "len(names_to_keep) == _i or exists(range_(0, _i), lambda j: " + M(NTH) + ")"}},
                     1: {"iter": "self.import_items_to_be_removed",
                         "inv": {"scan": "not found and forall(range_(0, _i), lambda q: not (" + cond_inner.format(it="nth(items_of(self), q)") + "))"}},
                     "tags": {"names_to_keep": "Seq[Alias]"}})
